@@ -48,6 +48,14 @@ func (w *world) runHist() {
 			h.obs = append(h.obs, ho)
 		}
 	}
+	// non-privileged observers carrying Always* options
+	for n, oo := range []struct{ o, opt string }{{"--", "S"}, {"--", "C"}, {"L-", "S"}, {"-I", "C"}, {"--", "SC+rel+abs"}} {
+		ho := &hobs{name: oo.o + "/always:" + oo.opt, l: oo.o[0] == 'L', i: oo.o[1] == 'I', cache: n%2 == 1, seen: map[string]bool{}, touched: map[string]bool{}}
+		opts := &database.Options{Local: ho.l, Internal: ho.i, CacheSize: cacheSize(ho.cache)}
+		applyObserverOptions(opts, oo.opt)
+		ho.iface = database.NewInterface(opts)
+		h.obs = append(h.obs, ho)
+	}
 	h.obs = append(h.obs, &hobs{name: "api", api: newAPIConn(w), seen: map[string]bool{}, touched: map[string]bool{}})
 
 	steps := 250
@@ -166,16 +174,16 @@ func (h *hist) handed(o *hobs, path string, recs []obsRec, texts ...[]byte) {
 				}
 				d["handed_tokens"] = ht
 				d["key_may_be_cached"] = o.touched[r.Key]
-				w.b.Violation(vsig("returned", path, w.backend, false, clause(o.l, o.i, cur.Flags)),
+				w.b.Violation(vsig("returned", path, w.backend, "", clause(o.l, o.i, cur.Flags)),
 					fmt.Sprintf("a %s record was handed to observer %s through %s in a history", flagNames[cur.Flags], o.name, path), d)
 			}
 		}
-		w.scanFor(o.l, o.i, path, false, func(t string) bool { return o.seen[t] }, det, r.Bytes...)
+		w.scanFor(o.l, o.i, path, "", func(t string) bool { return o.seen[t] }, det, r.Bytes...)
 		for _, t := range toks {
 			o.seen[t] = true
 		}
 	}
-	w.scanFor(o.l, o.i, path, false, func(t string) bool { return o.seen[t] }, det, texts...)
+	w.scanFor(o.l, o.i, path, "", func(t string) bool { return o.seen[t] }, det, texts...)
 }
 
 func (h *hist) obsStep(k int) {
@@ -308,11 +316,11 @@ func (h *hist) obsStep(k int) {
 			}
 			if err == nil {
 				ok = false
-				w.b.Violation(vsig("write-accepted", op, w.backend, stale, cl),
+				w.b.Violation(vsig("write-accepted", op, w.backend, staleClass(stale), cl),
 					fmt.Sprintf("%s on a %s record through observer %s returned no error in a history", op, flagNames[s0.Flags], o.name), det)
 			} else if after != s0 {
 				ok = false
-				w.b.Violation(vsig("state-changed", op, w.backend, stale, cl),
+				w.b.Violation(vsig("state-changed", op, w.backend, staleClass(stale), cl),
 					fmt.Sprintf("%s on a %s record through observer %s changed the record in a history", op, flagNames[s0.Flags], o.name), det)
 			}
 			if ok {
@@ -337,4 +345,11 @@ func (h *hist) obsStep(k int) {
 	if err == nil {
 		w.b.Count("hist_obs_ops_succeeded", 1)
 	}
+}
+
+func staleClass(stale bool) string {
+	if stale {
+		return "stale-cache"
+	}
+	return ""
 }
